@@ -2,6 +2,7 @@
    ExtrOcamlBasic only; no Extract Constant. Not part of _CoqProject: compiled by the check
    in a scratch directory (extraction writes model.ml into the current directory). *)
 From Coq Require Import Extraction ExtrOcamlBasic List NArith.
-From LB Require Import Tables Framing.
+From LB Require Import Tables Framing NodeFlow Rx Link.
 Extraction "model.ml"
-  tx_init tx_step wire_chunks ref_decode crc8 frame encode_msg wf_msg added.
+  tx_init tx_step wire_chunks ref_decode crc8 frame encode_msg wf_msg added
+  flow_init flow_step flow_run link_rx rx_init rx_run canon.
